@@ -729,4 +729,206 @@ theorem c12_sync_fallback_without_wait_reorders :
     (arun false 1 [.deliver 3, .deliver 4, .syncApply, .work]).applied = [4, 1, 2, 3] := by decide
 
 
+
+
+/-! ### every trace the driver LTS can emit is accepted by the trace acceptor -/
+
+/-- the commands of the committed log in (a, b]; `id i` is the command at index i (raft's agreement) -/
+def cmdsOf (id : Nat → Nat) (a b : Nat) : List (Nat × Nat) :=
+  (List.range' (a + 1) (b - a)).map (fun i => (i, id i))
+
+/-- ghost state next to the driver: the acceptor's state, the state machine's running
+    checksum, the checksum stored in the durable snapshot, and whether the acceptor is still happy -/
+structure G where
+  rep : Rep := {}
+  smChain : Nat := 0
+  snapChain : Nat := 0
+  ok : Bool := true
+
+/-- the event a driver step makes the state machine log (what the harness records), if any -/
+def emitEv (id : Nat → Nat) (ic : Nat → Nat) (d : D) (g : G) : Step → Option Ev
+  | .apply =>
+    match d.inflight with
+    | some (a, b) => some (.apply (cmdsOf id a b) (chainOf g.smChain (cmdsOf id a b)))
+    | none => none
+  | .compact => some (.snap d.smPos g.smChain)
+  | .restart => if d.snap ≠ 0 then some (.restore d.snap g.snapChain) else some .restart
+  | .install k => some (.restore k (ic k))
+  | _ => none
+
+def gstep (id ic : Nat → Nat) (dg : D × G) (s : Step) : D × G :=
+  match step dg.1 s with
+  | none => dg
+  | some d' =>
+    let g := dg.2
+    match emitEv id ic dg.1 g s with
+    | none => (d', g)
+    | some ev =>
+      let r := g.rep.step ev
+      (d', { rep := r.1, ok := g.ok && r.2.isNone,
+             smChain := r.1.chain,
+             snapChain := match s with
+               | .compact => g.smChain
+               | .install k => ic k
+               | _ => g.snapChain })
+
+def grun (id ic : Nat → Nat) (ss : List Step) : D × G := ss.foldl (gstep id ic) ({}, {})
+
+theorem increasing_cmdsOf (id : Nat → Nat) (p a n : Nat) (h : p ≤ a) :
+    increasing p ((List.range' (a + 1) n).map (fun i => (i, id i))) = true := by
+  induction n generalizing p a with
+  | zero => rfl
+  | succ n ih =>
+    simp only [List.range'_succ, List.map_cons, increasing, Bool.and_eq_true, decide_eq_true_eq]
+    exact ⟨by omega, ih (a + 1) (a + 1) (Nat.le_refl _)⟩
+
+theorem last_cmdsOf (id : Nat → Nat) (a n : Nat) (p : Nat) :
+    ((((List.range' (a + 1) (n + 1)).map (fun i => (i, id i))).getLast?).map (·.1)).getD p = a + n + 1 := by
+  induction n generalizing a with
+  | zero => simp [List.range'_succ]
+  | succ n ih =>
+    rw [List.range'_succ, List.map_cons]
+    have := ih (a + 1)
+    rw [List.range'_succ, List.map_cons] at this ⊢
+    rw [List.getLast?_cons_cons]
+    rw [this]; omega
+
+structure GI (d : D) (g : G) : Prop where
+  inv : Inv d
+  pos : g.rep.pos = d.smPos
+  chain : g.rep.chain = g.smChain
+  ok : g.ok = true
+
+theorem gi_step (id ic : Nat → Nat) (d : D) (g : G) (s : Step) (h : GI d g) :
+    GI (gstep id ic (d, g) s).1 (gstep id ic (d, g) s).2 := by
+  unfold gstep
+  cases hs : step d s with
+  | none => simpa using h
+  | some d' =>
+    have hinv' := inv_step d d' s h.inv hs
+    simp only
+    cases s with
+    | apply =>
+      simp only [step] at hs
+      cases hv : d.vol with
+      | none => rw [hv] at hs; cases hs
+      | some v =>
+        cases hi : d.inflight with
+        | none => rw [hv, hi] at hs; cases hs
+        | some ab =>
+          obtain ⟨a, b⟩ := ab
+          rw [hv, hi] at hs
+          simp only [Option.some.injEq] at hs
+          subst hs
+          have hin := h.inv.inflight a b hi
+          have ha : a = d.smPos := h.inv.volPos a hin.1
+          have hlt := hin.2.1
+          obtain ⟨n, hn⟩ : ∃ n, b - a = n + 1 := ⟨b - a - 1, by omega⟩
+          have hincr : increasing g.rep.pos (cmdsOf id a b) = true := by
+            unfold cmdsOf; exact increasing_cmdsOf id _ a _ (by rw [h.pos]; omega)
+          simp only [emitEv, hi, Rep.step, hincr, Bool.not_true, Bool.false_eq_true, if_false, h.chain,
+            ne_eq, not_true_eq_false]
+          refine ⟨hinv', ?_, rfl, by simp [h.ok]⟩
+          simp only
+          unfold cmdsOf
+          rw [hn, last_cmdsOf]; omega
+    | compact =>
+      simp only [step] at hs
+      cases hv : d.vol with
+      | none => rw [hv] at hs; cases hs
+      | some v =>
+        cases hi : d.inflight with
+        | some ab => rw [hv, hi] at hs; cases hs
+        | none =>
+          rw [hv, hi] at hs
+          simp only at hs
+          split at hs
+          · cases hs
+            simp only [emitEv, Rep.step, h.chain, ne_eq, not_true_eq_false, if_false]
+            exact ⟨hinv', h.pos, h.chain, by simp [h.ok]⟩
+          · cases hs
+    | restart =>
+      simp only [step] at hs
+      cases hv : d.vol with
+      | some v => rw [hv] at hs; cases hs
+      | none =>
+        rw [hv] at hs
+        simp only [Option.some.injEq] at hs
+        subst hs
+        by_cases h0 : d.snap = 0
+        · have hm := h.inv.markLe h0
+          simp only [emitEv, h0, ne_eq, not_true_eq_false, if_false, Rep.step, restartPos]
+          exact ⟨by simpa [restartPos, h0] using hinv', h.pos, rfl, by simp [h.ok]⟩
+        · simp only [emitEv, h0, ne_eq, not_false_eq_true, if_true, Rep.step, restartPos]
+          exact ⟨by simpa [restartPos, h0] using hinv', rfl, rfl, by simp [h.ok]⟩
+    | install k =>
+      simp only [step] at hs
+      cases hv : d.vol with
+      | none => rw [hv] at hs; cases hs
+      | some v =>
+        cases hi : d.inflight with
+        | some ab => rw [hv, hi] at hs; cases hs
+        | none =>
+          rw [hv, hi] at hs
+          simp only at hs
+          split at hs
+          · cases hs
+            simp only [emitEv, Rep.step]
+            exact ⟨hinv', rfl, rfl, by simp [h.ok]⟩
+          · cases hs
+    | persist n =>
+      simp only [step] at hs; split at hs
+      · cases hs; exact ⟨hinv', h.pos, h.chain, h.ok⟩
+      · cases hs
+    | commitTo c =>
+      simp only [step] at hs; split at hs
+      · cases hs; exact ⟨hinv', h.pos, h.chain, h.ok⟩
+      · cases hs
+    | track i =>
+      simp only [step] at hs; split at hs
+      · cases hs; exact ⟨hinv', h.pos, h.chain, h.ok⟩
+      · cases hs
+    | deliver b =>
+      simp only [step] at hs
+      split at hs
+      · split at hs
+        · cases hs; exact ⟨hinv', h.pos, h.chain, h.ok⟩
+        · cases hs
+      · cases hs
+    | markApplied =>
+      simp only [step] at hs; split at hs
+      · cases hs; exact ⟨hinv', h.pos, h.chain, h.ok⟩
+      · cases hs
+    | resolve i =>
+      simp only [step] at hs; split at hs
+      · cases hs; exact ⟨hinv', h.pos, h.chain, h.ok⟩
+      · cases hs
+    | leaderLoss =>
+      simp only [step] at hs; split at hs
+      · cases hs; exact ⟨hinv', h.pos, h.chain, h.ok⟩
+      · cases hs
+    | crash =>
+      simp only [step] at hs; cases hs; exact ⟨hinv', h.pos, h.chain, h.ok⟩
+
+/-- **driver_traces_accepted**: run the Ready-driver LTS on ANY schedule (crashes, restarts,
+    compactions, snapshot installs anywhere), let every apply / snapshot / restore / restart it
+    performs be logged the way the harness logs them (commands `id i` of the agreed log, the
+    running checksum): the trace acceptor (`Rep.step`, the judge of the differential run)
+    accepts every event — the acceptor rejects nothing the modelled driver can do. -/
+theorem c12_driver_traces_accepted (id ic : Nat → Nat) (ss : List Step) :
+    (grun id ic ss).2.ok = true ∧ (grun id ic ss).2.rep.pos = (grun id ic ss).1.smPos := by
+  suffices ∀ (dg : D × G), GI dg.1 dg.2 → GI (ss.foldl (gstep id ic) dg).1 (ss.foldl (gstep id ic) dg).2 by
+    have := this ({}, {}) ⟨inv_init, rfl, rfl, rfl⟩
+    exact ⟨this.ok, this.pos⟩
+  induction ss with
+  | nil => intro dg h; exact h
+  | cons s ss ih =>
+    intro dg h
+    simp only [List.foldl_cons]
+    exact ih _ (gi_step id ic dg.1 dg.2 s h)
+
+example : (grun (fun i => i + 100) (fun _ => 0) [.persist 3, .commitTo 3, .deliver 2, .apply, .compact, .crash, .restart,
+    .deliver 3, .apply]).2.rep.pos = 3 := by decide
+
+
 end WK.C12
